@@ -55,7 +55,7 @@ PROPS["C04"] = dict(
     partial=["that the body's input list is the concatenation of the blocks' selections is the model of compile_inputs (Compile.v, tied by C02/C08/C10/C14); the theorem says that this concatenation holds no reference twice, and the same is checked on the implementation's output (clause 106)"],
     trusted_base=SELECT_TB,
     assumptions=["input blocks of one transaction have distinct lower-cased names (see DESIGN 5.4)"],
-    check_names={106: "a UTxO is bound to two input blocks"},
+    check_names={106: "a UTxO is bound to two input blocks", 108: "two input blocks of one resolve_tx pass hold the same UTxO (fee loop)"},
 )
 
 TIR_TB = TB_COMMON + [
@@ -286,7 +286,7 @@ PROPS["C13"] = dict(
                  134: "accepted, lowering panics: name of the wrong kind as a value", 135: "accepted, lowering fails: arity / unknown function",
                  136: "accepted, lowering fails: malformed hex literal", 137: "accepted, lowering fails: unresolved chain of definitions",
                  138: "accepted, lowering fails: directive lacks a required field", 139: "accepted, lowering fails: invalid property", 140: "accepted, lowering fails: invalid symbol",
-                 141: "a program with constructor-form policy definitions is accepted (or panics) and does not lower"},
+                 141: "a text program outside the modelled core (constructor-form policies; parameters / environment values typed by records, variants, alias chains) is accepted (or panics) and does not lower"},
 )
 PROPS["C17"] = dict(
     level="proof", runner="C17", needs_tx3c=True, model_files=FRONT_MODEL, proof_files=["Front_proofs.v", "Lower_names.v", "Analyze_names.v"], check_files=["Front_check.v"],
